@@ -407,6 +407,8 @@ class Plan:
         n = os.path.getsize(e["file"])
         if t["kind"] == "hasher":
             j["parts"] = t["parts"]
+            if j["parts"] == "none":
+                j["parts"], j["noupdate"] = "*", 1
             j["init"] = t["sched"].get("init", 0)
             j["prefill"] = "%02X" % t["sched"].get("prefill", 165) if j["init"] != 1 else "00"
             return j
@@ -590,6 +592,11 @@ def report(ctx, plan, rej, trace_of):
 def hasher_parts(rng, n, thorough):
     """Update-call partitions for an input of n bytes (piece lists for stddrive's parts=; '*' = the rest)."""
     ps = ["*"]
+    if n == 0:
+        ps.append("none")                                # the empty string as ZERO update calls
+        ps.append("0,0,*")                               # ... and as three empty update calls
+    else:
+        ps.append("0,%d,0,*" % rng.randrange(1, n + 1))  # empty update calls before and between the data
     if n >= 2:
         ps.append("1")                                   # 1-byte pieces
     if 2 <= n <= 6:
